@@ -208,6 +208,8 @@ func runC17Case(r *ev.Run, c c17Case) int {
 	}
 	stallVerb := "none"
 	steps := 0
+	var stallTick int64
+	var logR []faultio.ReadObs
 	sess, conns := farm.Snapshot()
 	if len(sess) > judged {
 		cmds, _, _ := sess[judged].Snapshot()
@@ -217,12 +219,16 @@ func runC17Case(r *ev.Run, c c17Case) int {
 			}
 			if cr.Stalled {
 				stallVerb = cr.Verb
+				if stallTick == 0 {
+					stallTick = cr.Tick
+				}
 			}
 		}
 	}
 	var pendR, pendW []faultio.ReadObs
 	if len(conns) > judged {
 		pendR, pendW = conns[judged].PendingIO()
+		logR, _ = conns[judged].IOLog()
 	}
 	mu.Lock()
 	cs, ret, retAt := callStart, returned, returnedAt
@@ -262,6 +268,33 @@ func runC17Case(r *ev.Run, c c17Case) int {
 		} else {
 			r.Max("max_follow_up_return_ms", followEl.Milliseconds())
 			_ = followErr
+		}
+	}
+	// the waiting time the client granted the silent server: every read that ran into its deadline after the server had
+	// stopped answering was armed with (deadline - start of the read). These are the client's own numbers, not the
+	// machine's speed; together they may not exceed the configured timeout (half a timeout of tolerance).
+	if stallTick > 0 {
+		var granted time.Duration
+		nTimedOut := 0
+		var obs []string
+		for _, o := range logR {
+			if ret && !o.At.Before(retAt) {
+				continue // a read of the follow-up call: every call has its own timeout
+			}
+			if o.Returned && o.WasTimeout && !o.Deadline.IsZero() && o.ReturnedAt.After(o.At) {
+				// reads that were pending when the server went silent count as well: they end after the stall began
+				if o.Tick > stallTick || nTimedOut == 0 {
+					if d := o.Deadline.Sub(o.At); d > 0 {
+						granted += d
+					}
+					nTimedOut++
+					obs = append(obs, fmt.Sprintf("read armed with %v", o.Deadline.Sub(o.At).Round(time.Millisecond)))
+				}
+			}
+		}
+		r.Max("max_timed_out_reads_after_a_stall", int64(nTimedOut))
+		if nTimedOut > 1 && granted > timeout+timeout/2 {
+			viol("waited-several-timeouts:"+key, fmt.Sprintf("after the server went silent at %s, %s (timeout %v) ran %d reads into their deadlines, each armed anew: together it granted the silent server %v", stallVerb, cfg.Call, timeout, nTimedOut, granted.Round(time.Millisecond)), obs)
 		}
 	}
 	if !hung && ret {
